@@ -493,6 +493,66 @@ theorem run_dsc (ops : List Op) {s : St} : (run s ops).dsc = s.dsc := by
       obtain ⟨s1, o⟩ := r
       exact (ih (s := s1)).trans (step_ptrans hst).const.2.1
 
+/-! ### the saturating subtractions of the totals never saturate -/
+
+/-- the recorded owner's total contains every unit the caller pays in -/
+theorem PosInv.owner_covers {s : St} (hI : PosInv s) {c : Nat} {pay : Pay} {h0 : Nat → Nat → Nat}
+    {a : Attrs} (hc : c ∈ s.accts) (hd : debit s.hold c [pay] = some h0)
+    (ha : posOf s.md pay.1 = some a) : pay.2 ≤ s.userTotal a.owner := by
+  have hI' : PosOK (pv s) := hI
+  have h1 := wsum_debit (ownW s.md a.owner) (accts := s.accts.dedup) (N := s.nonce + 1) hd
+    (List.mem_dedup.mpr hc) hI'.nodup (hI'.pay_lt hd)
+  have h2 : s.userTotal a.owner = _ := hI'.own a.owner
+  simp only [payW, ownW_some ha, if_true, Nat.one_mul, Nat.add_zero] at h1
+  rw [h2]
+  show pay.2 ≤ wsum s.hold s.accts.dedup (s.nonce + 1) (ownW s.md a.owner)
+  omega
+
+/-- `unstakeFarm`: `decrease_user_farm_position` is an exact subtraction in every state that
+    satisfies the position invariant -/
+theorem unstakeCore_total_exact {s s' : St} {c orig : Nat} {pay : Pay} {x : Option Nat} {o : Out}
+    (hI : PosInv s) (hc : c ∈ s.accts) (h : unstakeCore s c orig pay x = some (s', o)) :
+    ∃ a, posOf s.md pay.1 = some a ∧ pay.2 ≤ s.userTotal a.owner ∧
+      s'.userTotal a.owner = s.userTotal a.owner - pay.2 ∧
+      (∀ u, u ≠ a.owner → s'.userTotal u = s.userTotal u) ∧ s'.supply + pay.2 = s.supply := by
+  obtain ⟨inc, base, hold0, attrs, tok, e, _, hd, ha, ht, hle, e'⟩ := unstakeCore_pv h
+  obtain ⟨_, _, t3, _⟩ := intoPart_spec ht
+  have hcov := hI.owner_covers hc hd ha
+  have hut : s'.userTotal = decreaseUT s.userTotal attrs.owner pay.2 := congrArg PV.ut e'
+  have hsup : s'.supply = s.supply - tok.amount := congrArg PV.supply e'
+  refine ⟨attrs, ha, hcov, ?_, fun u hu => ?_, by omega⟩
+  · rw [hut]; simp only [decreaseUT, upd_same]; split <;> omega
+  · rw [hut]; simp only [decreaseUT, upd_other _ _ hu]
+
+/-- a position recorded for somebody else is used by the caller in a claim: exactly the amount
+    sent moves from the recorded owner's total to the caller's -/
+theorem claimCore_foreign {s s' : St} {c : Nat} {pay : Pay} {o : Out} {a : Attrs}
+    (hI : PosInv s) (hc : c ∈ s.accts) (h : claimCore s c c [pay] none = some (s', o))
+    (ha : posOf s.md pay.1 = some a) (hne : a.owner ≠ c) :
+    pay.2 ≤ s.userTotal a.owner ∧ s'.userTotal a.owner = s.userTotal a.owner - pay.2 ∧
+    s'.userTotal c = s.userTotal c + pay.2 ∧
+    (∀ u, u ≠ c → u ≠ a.owner → s'.userTotal u = s.userTotal u) ∧
+    (∃ t, s'.md (s.nonce + 1) = some (.pos t) ∧ t.owner = c ∧ t.amount = pay.2) := by
+  obtain ⟨inc, base, p, first, tok, hold0, ut1, merged, ut2, supply2, _, hp, hf, ht, hd, hk, hm,
+    _, hu, e⟩ := claimCore_pv h
+  simp only [List.head?_cons, Option.some.injEq] at hp
+  subst hp
+  simp only [newUserTotal, Option.some.injEq] at hu
+  subst hu
+  simp only [List.tail_cons, mergeParts, Option.some.injEq] at hm
+  subst hm
+  obtain ⟨_, _, t3, _⟩ := intoPart_spec ht
+  have hcov := hI.owner_covers hc hd ha
+  have hut : s'.userTotal = ut1 := congrArg PV.ut e
+  have hmd : s'.md = upd s.md (s.nonce + 1) _ := congrArg PV.md e
+  simp only [checkAndUpdate, ha, Option.bind_eq_bind, Option.bind_some, if_neg hne,
+    Option.some.injEq] at hk
+  subst hk
+  refine ⟨hcov, ?_, ?_, fun u h1 h2 => ?_, ⟨_, by rw [hmd, upd_same], rfl, t3⟩⟩
+  · rw [hut, upd_other _ _ hne]; simp only [decreaseUT, upd_same]; split <;> omega
+  · rw [hut, upd_same]; simp only [decreaseUT, upd_other _ _ (fun e : c = a.owner => hne e.symm)]
+  · rw [hut, upd_other _ _ h1]; simp only [decreaseUT, upd_other _ _ h2]
+
 /-! ### the invariant spelled out with plain list sums (for the property statements) -/
 
 theorem wsum_posW_explicit (hold : Nat → Nat → Nat) (accts : List Nat) (N : Nat) (md : Nat → Option Meta) :
